@@ -157,7 +157,8 @@ def rand_fills(rng, fmt, kind, dists, dims, ntab=24):
     """fill specs + tables hitting bin edges"""
     fills = []; tables = []
     for j, d in enumerate(dists):
-        two = d[1] > 1
+        # (a two-dimensional fill of a distribution with a single y bin is an x-distribution inside a y-window)
+        two = d[1] > 1 or rng.random() < 0.35
         mode = rng.choice(['edges', 'point', 'edges'])
         if mode == 'point':
             xs = ['c' if kind == 'mc' else 'p', rng.randrange(dims)]
@@ -487,6 +488,21 @@ def gen_C12(c, rng, tier):
                 elif rng.random() < 0.25:
                     s, cl3 = mpi_variant(rng, s, info); cl += cl3
                 c.add(t, 'run', s, classes=cl + cl2, nontrivial=iters >= 2, info=info)
+    gen_C12_resumed(c, rng, tier)
+
+def gen_C12_resumed(c, rng, tier):
+    """the built-in callback with a positive target on resumed checkpoints: the stop decision must use all results, also those
+    made before the interruption"""
+    for t in TYPES:
+        fmt = FMTS[t]
+        for kind in KINDS:
+            for _ in range(scale(tier, 4, 30)):
+                iters = rng.choice([3, 4, 6])
+                target = rng.choice([Fraction(1, 4), Fraction(1, 10), Fraction(1, 20), Fraction(2, 5)])
+                s, cl, info = rand_run(rng, fmt, kind, iters=iters, calls=[4, 9, 16], cb=['builtin', rng.randrange(4), fmt.rtok(target)], poly=True, finite_only=True)
+                k = rng.randint(1, iters - 1)
+                s = [e for e in s if e[0] != 'ops'] + [['ops', [['run', info['calls'][:k]], ['reload'], ['run', info['calls'][k:]], ['dump']]]]
+                c.add(t, 'run', s, classes=cl + ['resumed', 'cb_builtin', 'target_positive'], info=info)
 
 @prop('C17', 'event logs (map-coordinates, integrand, map-densities events with channel, random numbers, coordinates, enabled channels, buffer identity) of '
       'runs with zero / non-zero / non-finite value patterns, with and without projector use and explicit weight requests, disabled channels, extreme canonical '
